@@ -31,7 +31,7 @@ def main(argv):
     faulthandler.dump_traceback_later(hard, exit=True)
     repo_sanity()
     ctx = Ctx(module, tier, seed, shard, nshards)
-    ctx.soft_s = getattr(module, "SOFT_S", {"quick": 20, "thorough": 240})[tier]
+    ctx.soft_s = getattr(module, "SOFT_S", {"quick": 20, "thorough": 240})[tier] * float(os.environ.get("VERIF_SOFT_SCALE", "1"))
     module.run(ctx)
     res = ctx.result()
     with open(out + ".hashes", "wb") as f:
